@@ -42,6 +42,7 @@ func mk(ast spec.Expr) rel {
 }
 
 func Setup() {
+	setupAbbrev()
 	one := spec.Num{V: 1}
 	rels = []rel{
 		mk(spec.Rel(spec.S("parent", tNode))),
@@ -216,5 +217,72 @@ func RunFnStep() {
 		default:
 			nd.Assert(false, id+".type")
 		}
+	}
+}
+
+var abPrefix = []string{"//*/ancestor::*", "//*/preceding-sibling::*", "//node()/preceding::*", "//@*/ancestor-or-self::*", "//*", "/*/*"}
+var abJoin = [][2]string{{"//a", ".//a"}, {"//*", ".//*"}, {"//@*", ".//@*"}, {"//text()", ".//text()"}, {"/..", ".."}, {"//.", ".//."}, {"/*", "*"}}
+var abP, abR []*xsel.Grammar
+var abWhole [][]*xsel.Grammar
+
+func setupAbbrev() {
+	abP, abR, abWhole = nil, nil, nil
+	mk := func(s string) *xsel.Grammar {
+		g := xsel.MustBuildExpr(s)
+		return &g
+	}
+	for _, j := range abJoin {
+		abR = append(abR, mk(j[1]))
+	}
+	for _, p := range abPrefix {
+		abP = append(abP, mk(p))
+		var row []*xsel.Grammar
+		for _, j := range abJoin {
+			row = append(row, mk(p+j[0]))
+		}
+		abWhole = append(abWhole, row)
+	}
+}
+
+// RunComposeAbbrev: the composition law for ABBREVIATED joins (P//x, P/..,
+// P/*), also when P ends in a reverse axis so that its nodes arrive in reverse
+// document order: Exec(root, P//x) = union over n in P of Exec(n, .//x).
+func RunComposeAbbrev() {
+	b := hx.GenOrSkeleton(genOpts())
+	nd.Assert(b.TieOK, "store-mirrors-script")
+	pi := nd.Choice(len(abPrefix))
+	nd.Reach("compose-abbrev")
+	pr, err := xsel.Exec(b.Root, abP[pi])
+	pset, ok := pr.(xsel.NodeSet)
+	nd.Assert(err == nil && ok, "prefix.is-nodeset")
+	for ri := range abJoin {
+		id := abPrefix[pi] + abJoin[ri][0]
+		whole, err := xsel.Exec(b.Root, abWhole[pi][ri])
+		wset, ok := whole.(xsel.NodeSet)
+		nd.Assert(err == nil && ok, id+".is-nodeset")
+		union := make([]bool, len(b.Doc.Nodes))
+		for _, n := range pset {
+			sub, err := xsel.Exec(n, abR[ri])
+			sset, ok := sub.(xsel.NodeSet)
+			nd.Assert(err == nil && ok, id+".sub.is-nodeset")
+			for _, c := range sset {
+				if k := b.Index(c); k >= 0 {
+					union[k] = true
+				}
+			}
+		}
+		got := make([]bool, len(b.Doc.Nodes))
+		for _, c := range wset {
+			if k := b.Index(c); k >= 0 {
+				got[k] = true
+			}
+		}
+		same := true
+		for k := range got {
+			if got[k] != union[k] {
+				same = false
+			}
+		}
+		nd.Assert(same, id+".composes")
 	}
 }
